@@ -341,6 +341,19 @@ let cmd_dec (args : string list) : string =
     (match decode_message (fuel_for bs) bs with
      | Ok (x, _) -> "ok " ^ hex_of_bytes (encode_message x)
      | Err e -> "err " ^ err_name e | Panic s -> "panic " ^ hex_of_n s | Fuel -> "fuel")
+  (* lib0 v2 (column) form of an update *)
+  | ["update2"; hx] -> let bs = bytes_of_hex hx in pres print_update (decode_update_v2 bs)
+  | ["reenc_update2"; hx] ->
+    let bs = bytes_of_hex hx in
+    (match decode_update_v2 bs with
+     | Ok (u, _) -> (match encode_update_v2 u with Some out -> "ok " ^ hex_of_bytes out | None -> "panic encode")
+     | Err e -> "err " ^ err_name e | Panic s -> "panic " ^ hex_of_n s | Fuel -> "fuel")
+  (* v1 bytes -> the model's v2 encoding of the decoded update (embed / format payloads differ between the formats, the model keeps them as bytes) *)
+  | ["v1_to_v2_blocks"; hx] ->
+    let bs = bytes_of_hex hx in
+    (match decode_update_v1 (fuel_for bs) bs with
+     | Ok (u, _) -> (match encode_update_v2 u with Some out -> "ok " ^ hex_of_bytes out | None -> "panic encode")
+     | Err e -> "err " ^ err_name e | Panic s -> "panic " ^ hex_of_n s | Fuel -> "fuel")
   | ["reenc_update"; hx] ->
     let bs = bytes_of_hex hx in
     (match decode_update_v1 (fuel_for bs) bs with
